@@ -34,6 +34,9 @@ pub struct CliCheck {
     pub argv: Vec<String>,
     pub files: Vec<(String, FileKind)>,
     pub stdin: Vec<u8>,
+    /// address-space limit of the hpbf process in MiB (default 8192): with `--static` a small
+    /// one makes the pre-growth of the tape a request the system refuses
+    pub as_limit_mb: Option<u64>,
 }
 
 impl CliCheck {
@@ -50,6 +53,7 @@ impl CliCheck {
                 FileKind::Fifo(t) => json!({"name": n, "fifo": t}),
             }).collect::<Vec<_>>(),
             "stdin": self.stdin,
+            "address_space_limit_mb": self.as_limit_mb,
         })
     }
 
@@ -75,6 +79,7 @@ impl CliCheck {
             argv: v.get("argv")?.as_array()?.iter().map(|x| x.as_str().unwrap_or("").to_string()).collect(),
             files,
             stdin: v.get("stdin")?.as_array()?.iter().map(|x| x.as_u64().unwrap_or(0) as u8).collect(),
+            as_limit_mb: v.get("address_space_limit_mb").and_then(|x| x.as_u64()),
         })
     }
 
@@ -247,6 +252,7 @@ struct Ran {
     stdout: Vec<u8>,
     stderr: Vec<u8>,
     code: Option<i32>,
+    signal: Option<i32>,
     stdin_offset: i64,
     hang: bool,
 }
@@ -288,17 +294,18 @@ fn run_process(c: &CliCheck, serial: u64) -> Ran {
         .stdout(Stdio::from(std::fs::File::create(&out_path).unwrap()))
         .stderr(Stdio::from(std::fs::File::create(&err_path).unwrap()))
         .env("RUST_BACKTRACE", "0");
+    let as_limit: u64 = c.as_limit_mb.unwrap_or(8192) << 20;
     // a broken binary must not be able to fill the disk or burn CPU for long
     unsafe {
         use std::os::unix::process::CommandExt;
-        child.pre_exec(|| {
+        child.pre_exec(move || {
             let fsize = libc::rlimit { rlim_cur: 8 << 20, rlim_max: 8 << 20 };
             libc::setrlimit(libc::RLIMIT_FSIZE, &fsize);
             let cpu = libc::rlimit { rlim_cur: 10, rlim_max: 12 };
             libc::setrlimit(libc::RLIMIT_CPU, &cpu);
             // (--static reserves 4 GiB of address space with 64-bit cells; anything beyond
             // twice that is a runaway and ends in the allocation-failure abort)
-            let mem = libc::rlimit { rlim_cur: 8 << 30, rlim_max: 8 << 30 };
+            let mem = libc::rlimit { rlim_cur: as_limit, rlim_max: as_limit };
             libc::setrlimit(libc::RLIMIT_AS, &mem);
             // never outlive the worker (which the parent may kill at any moment)
             libc::prctl(libc::PR_SET_PDEATHSIG, libc::SIGKILL);
@@ -350,6 +357,7 @@ fn run_process(c: &CliCheck, serial: u64) -> Ran {
         stdout: std::fs::read(&out_path).unwrap_or_default(),
         stderr: std::fs::read(&err_path).unwrap_or_default(),
         code: status.and_then(|s| s.code()),
+        signal: status.and_then(|s| std::os::unix::process::ExitStatusExt::signal(&s)),
         stdin_offset,
         hang,
     };
@@ -403,6 +411,8 @@ pub fn evaluate(c: &CliCheck) -> Verdict {
         Help,
         Exact(Vec<u8>),
         NonEmptyNoInput,
+        /// the pre-growth of --static cannot be served: allocation-failure abort, no output
+        AbortBeforeRunning,
         Skip(&'static str),
     }
     let want = if r.help {
@@ -422,6 +432,7 @@ pub fn evaluate(c: &CliCheck) -> Verdict {
                 None => Want::Skip("library could not render"),
             },
             Kind::PrintMc => Want::NonEmptyNoInput,
+            Kind::Exec(_) if c.as_limit_mb.map(|m| m <= 400).unwrap_or(false) && !r.safe && r.limit.is_none() => Want::AbortBeforeRunning,
             Kind::Exec(backend) => {
                 let rr = refmodel::run(
                     &r.code,
@@ -482,6 +493,22 @@ pub fn evaluate(c: &CliCheck) -> Verdict {
     v.executions += 1;
     if ran.hang {
         v.fail("hang", 0, "hpbf did not exit within 90 s of wall-clock time (it is also limited to 10 s of CPU time)".into());
+        return v;
+    }
+    if let Want::AbortBeforeRunning = want {
+        v.bump("fired_address_space_limit");
+        v.nontrivial = true;
+        if ran.signal == Some(libc::SIGABRT) || ran.code == Some(101) {
+            if !ran.stdout.is_empty() {
+                v.fail("output-before-abort", 0, format!("--static under a {} MiB address-space limit: the tape cannot be reserved, yet {} bytes were written to stdout before the abort", c.as_limit_mb.unwrap_or(0), ran.stdout.len()));
+            }
+        } else {
+            v.fail(
+                "continued-after-alloc-failure",
+                0,
+                format!("--static under a {} MiB address-space limit: the tape (at least 512 MiB) cannot be reserved; expected the allocation-failure abort (or a panic), got exit code {:?} signal {:?}, stdout {} bytes, stderr {:?}", c.as_limit_mb.unwrap_or(0), ran.code, ran.signal, ran.stdout.len(), String::from_utf8_lossy(&ran.stderr[..ran.stderr.len().min(120)])),
+            );
+        }
         return v;
     }
     let mut out = ran.stdout.clone();
@@ -561,7 +588,7 @@ pub fn evaluate(c: &CliCheck) -> Verdict {
                 v.fail("print-option-consumed-input", 0, format!("a print option left the stdin offset at {}", ran.stdin_offset));
             }
         }
-        Want::Skip(_) => {}
+        Want::Skip(_) | Want::AbortBeforeRunning => {}
     }
     v
 }
@@ -748,5 +775,8 @@ pub fn generate(rng: &mut Rng, prop: &str, corpus: &[String]) -> CliCheck {
     }
     let peer = Peer::generate(rng);
     let stdin: Vec<u8> = peer.script.iter().map(|b| b & peer.mask).collect();
-    CliCheck { prop: prop.to_string(), argv, files, stdin }
+    // --static reserves 2^29 cells up front: under a small address-space limit that request is
+    // refused by the system (a fault no allocator hook sees)
+    let as_limit_mb = if argv.iter().any(|a| a == "--static") && rng.chance(1, 3) { Some(*rng.pick(&[128u64, 256, 400])) } else { None };
+    CliCheck { prop: prop.to_string(), argv, files, stdin, as_limit_mb }
 }
